@@ -490,7 +490,14 @@ def _r112_offsets(ctx, R, lt) -> None:
              if call_name(c) in ('find', 'index') and nt(c.func.value) == name]
     inner = next((x for s_ in br['%'] for x in ast.walk(s_)
                   if isinstance(x, ast.For) and nt(x.iter) == st), None)
-    if len(rs) != 1 or len(rs[0].args) != 2 or len(finds) != 1 or \
+    if inner is None and rs:
+        R.fail(f, br['%'][0], '"%" reaches every offset up to the next '
+               'delimiter, and none beyond',
+               f'the "%" branch does not extend EVERY reachable offset in '
+               f'`{st}` (no loop over it): after "*" + literal there are '
+               f'several candidates and the later ones are dropped — LIST '
+               f'"" */% returns Work/2024 but not Work/2024/Q1')
+    elif len(rs) != 1 or len(rs[0].args) != 2 or len(finds) != 1 or \
             inner is None or len(finds[0].args) != 2:
         R.undecided(f, br['%'][0], '"%" stops at the hierarchy delimiter',
                     'range / find(delimiter, start) / loop over the offsets '
